@@ -10,7 +10,7 @@ package stream
 func (e *EventPublisher) VerifDrainOne() bool {
 	select {
 	case update := <-e.publishCh:
-		e.publishEvent(update)
+		e.handleUpdate(update)
 		return true
 	default:
 		return false
